@@ -14,6 +14,15 @@ def run (args : List String) : String :=
       | .ok t =>
         let go := match goType t with | some s => s | none => "PANIC"
         s!"ok sig={toHex (print t)} idl={idlName t} go={go.replace " " "_"}"
+  | ["sig.reparse", ha, hb] =>
+    -- parsing is a function of the text: what was done with the result of an earlier parse does not matter
+    match parseHex ha, parseHex hb with
+    | some a, some b =>
+      match parseSig a, parseSig b with
+      | .ok ta, .ok tb =>
+        s!"ok sig={toHex (print ta)} idl={idlName ta} sig={toHex (print tb)} idl={idlName tb}"
+      | _, _ => "err"
+    | _, _ => "bad-op"
   | ["sig.deep", shape, n] =>
     let k := n.toNat!
     let inp : Bytes := match shape with
